@@ -1,9 +1,39 @@
 """C01, C02, C17: bit core (data.go, internal/reinterpret). DESIGN.md 5.1, 5.2, 5.17."""
-import json
-import os
-import shutil
-
 import vlib
+
+_NOTE = ("Trusted: Coq 8.16.1 kernel; extraction (ExtrOcamlBasic) + OCaml 4.13.1; the hand-written model Can/Data.v, "
+         "validated against the code by the correspondence run; Go harness / OCaml driver / check.py glue. "
+         "Print Assumptions: closed under the global context (no axioms).")
+
+PROPERTIES = {
+    "C01": {
+        "text": "Coq theorems (Properties/C01.v) prove for all payloads and all fitting geometries that the model of the "
+                "readers returns exactly the documented payload bits (bit-extensionality, no bound); the model is tied to "
+                "data.go on every run by comparing it with the real accessors on all 4160 geometries x a GF(2) payload "
+                "basis + random words.",
+        "note": _NOTE + " Payload axis of the correspondence is sampled (basis + random), geometries exhaustive.",
+        "technique": "Coq proof about a Gallina model + differential correspondence of model and code",
+        "design_ref": "5.1",
+    },
+    "C02": {
+        "text": "Coq theorems (Properties/C02.v): every write changes exactly the addressed bits (content + frame condition "
+                "in one statement), read-after-write, signed truncation, commutation of disjoint writes and "
+                "order-independence of any list of pairwise-disjoint writes (induction over Permutation); model tied to "
+                "the code by differential runs over all geometries, prior payloads, values and write histories.",
+        "note": _NOTE + " Values/payloads sampled, geometries exhaustive.",
+        "technique": "Coq proof about a Gallina model + differential correspondence of model and code",
+        "design_ref": "5.2",
+    },
+    "C17": {
+        "text": "Coq theorems (Properties/C17.v) prove check = specification over the complete domain frameLength 0..8 x "
+                "start 0..255 x length 1..255 (both orders) and bits 1..64, plus the access-locality corollaries; the "
+                "correspondence run enumerates the same complete domain against the real functions on every run.",
+        "note": _NOTE + " The model/code tie is exhaustive over the property's domain (1,175,040 cases) on every run; "
+                        "CheckValue values are boundary+random.",
+        "technique": "Coq proof about a Gallina model + exhaustive correspondence of model and code",
+        "design_ref": "5.17",
+    },
+}
 
 RULES = {
     "C17": "exhaustive: every (frameLength 0..8, start 0..255, length 1..255) x {LE,BE} and a boundary+random value "
@@ -18,54 +48,18 @@ RULES = {
 
 def harness_args(pid, tier, seed):
     if pid == "C17":
-        return ["c17", str(seed)]
+        return ["c17", seed]
     if pid == "C01":
-        return ["c01", str(seed), "4" if tier == "quick" else "400"]
-    return ["c02", str(seed)] + (["2", "2000"] if tier == "quick" else ["40", "60000"])
+        return ["c01", seed, 4 if tier == "quick" else 400]
+    return ["c02", seed] + ([2, 2000] if tier == "quick" else [40, 60000])
 
 
 def run(res, replay=None):
     pid = res.id
     vlib.proof_stage(res)
-    res.corr_obligations = ["impl(%s observations) = extracted model on every generated case" % pid]
-    scratch = vlib.scratch_dir()
-    try:
-        exe, log = vlib.build_harness("can", scratch)
-        if exe is None:
-            res.violation("harness no longer builds against /repo (broken tie)", {"build_log": log[-3000:]}, no_input=True)
-            return
-        drv = vlib.build_driver("can")
-        rc, out, err = vlib.run_pipe(exe, harness_args(pid, res.tier, res.seed), drv, [])
-        stats = None
-        mism = []
-        for line in out.splitlines():
-            if line.startswith("STATS "):
-                stats = json.loads(line[6:])
-            elif line.startswith("MISMATCH "):
-                mism.append(line[9:])
-        if rc != 0 or stats is None:
-            res.violation("implementation harness or model driver failed (rc=%s)" % rc,
-                          {"stderr": err[-2000:], "stdout_tail": out[-1000:]}, no_input=True)
-            return
-        res.cov.update({
-            "evaluations": stats["cases"],
-            "distinct_nontrivial": stats["distinct_nontrivial"],
-            "rule": RULES[pid],
-            "samples": stats["samples"],
-            "kinds": stats["kinds"],
-            "exhaustive": pid == "C17",
-            "mismatches": stats["mismatches"],
-        })
-        res.assumptions = [
-            "the Gallina model Can/Data.v is a faithful transcription of data.go / reinterpret.go (checked by this run's "
-            "differential comparison, exhaustive over geometries; payload/value axis sampled)" if pid != "C17" else
-            "model = code is checked exhaustively over the property's whole (frameLength,start,length) domain on every run",
-            "amd64 Go semantics for shifts >= width and uint8/uint64 wrap-around as written in Can/Data.v",
-        ]
-        for m in mism[:5]:
-            obs, _, model = m.partition(" || model=")
-            res.violation("implementation disagrees with the specification (model = spec is a theorem): %s ; spec says %s" % (obs, model),
-                          {"observation": obs, "spec_value": model, "how": "line format documented in harness/can/main.go; "
-                           "replay with: python3 check.py %s %s" % (pid, res.tier)})
-    finally:
-        shutil.rmtree(scratch, ignore_errors=True)
+    vlib.standard_run(
+        res, "can", harness_args(pid, res.tier, res.seed), "can", RULES[pid],
+        ["the Gallina model Can/Data.v is a faithful transcription of data.go / reinterpret.go: checked on every run by the "
+         "differential comparison (exhaustive over geometries / the C17 domain; payload and value axes sampled)",
+         "Go semantics for shifts >= width and uint8/uint16/uint64 wrap-around as written in Can/Data.v (amd64)"],
+        exhaustive=(pid == "C17"))
